@@ -24,7 +24,7 @@ def register(R, P):
         d.update(kw); P[pid] = d
     prop("C01", EXECUTOR + ["CellsImpl.on_eval_formula", "CellsImpl._store_value", "CellsImpl.has_node", "CellsImpl.get_value_from_key",
                             "key_to_node", "Impl.get_property"])
-    prop("C02", GRAPH + ["CallStack.pop", "NonThreadedExecutor.eval_node", "CellsImpl.on_clear_trace", "CellsImpl.clear_value_at",
+    prop("C02", GRAPH + ["CallStack.pop", "CallStack.rollback", "NonThreadedExecutor._eval_formula", "NonThreadedExecutor.eval_node", "CellsImpl.on_clear_trace", "CellsImpl.clear_value_at",
                          "CellsImpl.clear_all_values", "CellsImpl.on_namespace_change", "UserCellsImpl.on_set_property", "ReferenceImpl.on_inherit", "UserCellsImpl.on_set_property", "node_has_key"])
     prop("C05", EXECUTOR + ["CellsImpl._store_value", "Impl.get_property", "CellsImpl.on_eval_formula"],
          assumptions=["interpreter C-stack depth ('chains shorter than the limit evaluate without crashing') is not decided by any contract; probed by the bounded driver"])
@@ -85,7 +85,7 @@ def register5(R, P):
                                  "Formula construction validates and has no effect on the model"],
                 "assumptions": ["the transactional behaviour of new_space/add_bases/remove_bases/del_defined_space beyond this, name validation and the "
                                 "description-level 'nothing changed' check: bounded driver only"]}
-    P["C03"] = {"targets": ["SpaceManager.set_cells_property"], "shards": {},
+    P["C03"] = {"targets": ["SpaceManager.set_cells_property", "SpaceGraph.max_index"], "shards": {},
                 "trusted_base": ["_get_subs (descendants in topological order), get_deriv_bases()[0] as the uninterpreted first_defined_base (C3 itself: bounded against CPython)",
                                  "UserCellsImpl.on_set_property through its call-site view (applied once; flag set): proved separately under C09",
                                  "Formula construction may raise and has no effect on the model; clear_subs_rootitems does not touch cells flags"],
